@@ -85,6 +85,12 @@ impl SpaceDescriptor {
         ret
     }
 
+    /// The raw bits (verification hook).
+    #[cfg(feature = "mmtk_verif")]
+    pub fn verif_bits(self) -> usize {
+        self.0
+    }
+
     pub fn is_empty(self) -> bool {
         self.0 == SpaceDescriptor::UNINITIALIZED.0
     }
